@@ -138,14 +138,23 @@ def r26(F):
     ops = blocks_of(lambda c: c.endswith("Environment::get_ops_for_path"))
     run = blocks_of(lambda c: c == "ucglib::build::opcode::vm::VM::run")
     upd = blocks_of(lambda c: c.endswith("Environment::update_path_val"))
-    need(norm and look and ops and run and upd, "import hook anchors missing (normalize/lookup/get_ops/run/update)")
-    ok = all(cfg.dominates(fn, norm[0], b) for b in look + ops + run)
-    r.inst("import:normalize-first", fn.where(norm[0]), ok, "path normalised before the cache lookup and the load" if ok else "a cache lookup / load happens before normalisation: equivalent spellings miss the cache")
-    # the looked-up key derives from normalize
-    for b in look:
-        labs = o.at(fn.term(b)["args"][1], b)
-        okk = "ucglib::path::normalize" in calls_in(labs)
-        r.inst("import:lookup-key", fn.where(b), okk, "cache key is the normalised path" if okk else "cache looked up with the raw path")
+    need(look and ops and run and upd, "import hook anchors missing (lookup/get_ops/run/update)")
+    if not norm:
+        # normalising somewhere else only helps if it covers every path string that reaches the hook: the cache accessors themselves
+        env_norm = all(any(callee(t) == "ucglib::path::normalize" for b, t in F.fn(n).calls())
+                       for n in F.fns if n.endswith(("Environment::get_cached_path_val", "Environment::update_path_val")))
+        r.inst("import:normalize-first", fn.where(look[0]), env_norm,
+               "the cache accessors normalise their key" if env_norm else
+               "the import hook uses the path string as it arrives (no path::normalize here or in the cache accessors): an absolute path "
+               "with `.` / `..` segments, which no rewriter touches, is a second cache key for the same file and is evaluated again")
+    else:
+        ok = all(cfg.dominates(fn, norm[0], b) for b in look + ops + run)
+        r.inst("import:normalize-first", fn.where(norm[0]), ok, "path normalised before the cache lookup and the load" if ok else "a cache lookup / load happens before normalisation: equivalent spellings miss the cache")
+        # the looked-up key derives from normalize
+        for b in look:
+            labs = o.at(fn.term(b)["args"][1], b)
+            okk = "ucglib::path::normalize" in calls_in(labs)
+            r.inst("import:lookup-key", fn.where(b), okk, "cache key is the normalised path" if okk else "cache looked up with the raw path")
     first_look = [b for b in look if all(cfg.dominates(fn, b, x) for x in ops)]
     r.inst("import:lookup-before-load", fn.where(look[0]), bool(first_look), "cache consulted before get_ops_for_path" if first_look else "file loaded without consulting the cache")
     # cycle test: an `any`/contains over import_stack whose true edge returns Err, before run
@@ -168,7 +177,7 @@ def r26(F):
         # (or on the clone) that dominates this block
         pushes = [pb for pb, pt in fn.calls() if callee(pt) == "alloc::vec::Vec::push" and cfg.dominates(fn, pb, b)
                   and fn.local_ty(op_local(pt["args"][0]) or 0).startswith("&mut alloc::vec::Vec<alloc::rc::Rc<str>>")]
-        ok = bool(pushes) and any("ucglib::path::normalize" in calls_in(o.at(fn.term(pb)["args"][1], pb)) for pb in pushes)
+        ok = bool(pushes) and (not norm or any("ucglib::path::normalize" in calls_in(o.at(fn.term(pb)["args"][1], pb)) for pb in pushes))
         r.inst("import:in-progress-before-run", fn.where(b), ok,
                "the path is on the import stack handed to the VM that evaluates the file" if ok else
                "the imported file is evaluated with an import stack that does not contain it: a cycle through nested "
@@ -181,7 +190,7 @@ def r26(F):
 
 def r26c(F):
     r = RuleResult("R26c", "checker import protocol",
-                   "Checker::resolve_import: normalise -> cache -> cycle test -> push in progress -> recurse -> cache insert", floor=6)
+                   "Checker::resolve_import: normalise -> cache -> cycle test -> push in progress -> recurse (in the imported file's directory) -> cache insert", floor=3)
     fn = F.fn("ucglib::ast::typecheck::Checker::resolve_import")
     o = Origins(fn)
     get = [b for b, t in fn.calls() if callee(t).endswith("BTreeMap::get")]
@@ -189,7 +198,31 @@ def r26c(F):
     push = [b for b, t in fn.calls() if callee(t) == "alloc::vec::Vec::push"]
     rec = [b for b, t in fn.calls() if callee(t).endswith("walk_statement_list")]
     wis = [(b, t) for b, t in fn.calls() if callee(t) == "ucglib::ast::typecheck::Checker::with_import_stack"]
-    need(get and cont and push and rec and wis, "resolve_import anchors missing")
+    # the directory the child checker resolves the imported file's own imports against: the imported file's directory
+    wwd = [(b, t) for b, t in fn.calls() if callee(t) == "ucglib::ast::typecheck::Checker::with_working_dir"]
+    dir_ok = any("std::path::Path::parent" in calls_in(o.at(t["args"][1], b)) for b, t in wwd)
+    if not dir_ok:
+        # assigned directly?
+        for b, j, pl, rv, m in fn.assigns():
+            if any(isinstance(e, dict) and e.get("f") == "working_dir" for e in pl["p"]) and rv.get("ops") and \
+                    "std::path::Path::parent" in calls_in(o.at(rv["ops"][0], b)):
+                dir_ok = True
+    need(get and cont and rec, "resolve_import anchors missing (cache lookup / cycle test / recursion)")
+    r.inst("resolve_import:child-dir", fn.where(rec[0]), dir_ok,
+           "the child checker works in the directory of the imported file" if dir_ok else
+           "the checker that checks an imported file does not get that file's directory as its working directory (it keeps the "
+           "importer's): the imported file's own relative imports are resolved against the wrong directory")
+    if not (push and wis):
+        # the in-progress mark may be pushed onto the child's stack directly
+        direct = [(b, t) for b, t in fn.calls() if callee(t) == "alloc::vec::Vec::push" and
+                  any(l == ("field", "import_stack") for l in o.at(t["args"][0], b))]
+        ok = bool(direct) and all(cfg.dominates(fn, direct[0][0], x) for x in rec)
+        cb, ct = cont[0]
+        sb, ft, tt = util.bool_switches(fn, ct["dest"]["l"])[0]
+        okc = not (cfg.reachable(fn, tt) & set(rec)) and all(cfg.dominates(fn, cb, x) for x in rec)
+        r.inst("resolve_import:cycle-test", fn.where(sb), okc, "cycle edge never recurses; test dominates the recursion" if okc else "checker can recurse into a file that is being resolved")
+        r.inst("resolve_import:in-progress", fn.where(rec[0]), ok, "the path is pushed onto the child's import stack before the recursion" if ok else "child checker's import stack lacks the path in progress")
+        return r
     cb, ct = cont[0]
     sb, ft, tt = util.bool_switches(fn, ct["dest"]["l"])[0]
     ok = not (cfg.reachable(fn, tt) & set(rec)) and all(cfg.dominates(fn, cb, x) for x in rec)
@@ -270,6 +303,7 @@ def r68(F):
     homes = {}
     for variant in ("Import", "Include"):
         arm = None
+        split_arm = None
         for b in range(len(fn.blocks)):
             t = fn.term(b)
             if t["k"] == "switch" and t.get("enum") == EXPR and not fn.is_cleanup(b):
@@ -287,6 +321,31 @@ def r68(F):
                         rel = [(x, tt) for x, tt in hf.calls() if x in hb and callee(tt) == "std::path::Path::is_relative"]
                         if joins and rel:
                             arm = (hf, hb, joins, rel)
+                    if arm is None:
+                        # the test in the arm, the join in a helper that returns the joined path
+                        rel = [(x, tt) for x, tt in fn.calls() if x in blocks and callee(tt) == "std::path::Path::is_relative"]
+                        for hf, hb in cands[1:]:
+                            joins = [(x, tt) for x, tt in hf.calls() if callee(tt) == "std::path::Path::join"]
+                            hcalls = [(x, tt) for x, tt in fn.calls() if x in blocks and callee(tt) == hf.name]
+                            if joins and rel and hcalls:
+                                split_arm = (hf, joins, rel, hcalls)
+        if arm is None and split_arm is not None:
+            hf, joins, rel, hcalls = split_arm
+            oh = Origins(hf)
+            of = Origins(fn)
+            jb, jt = joins[0]
+            ok_base = ("field", "base") in oh.at(jt["args"][0], jb)
+            rb, rt = rel[0]
+            sb, ft, tt = util.bool_switches(fn, rt["dest"]["l"])[0]
+            hb0 = hcalls[0][0]
+            ok_rel = cfg.dominates(fn, tt, hb0)
+            stored = any(("call", hf.name, hb0) in of.at(rv["ops"][0], b) and "fragment" in [e.get("f") for e in pl["p"] if isinstance(e, dict)]
+                         for b, j, pl, rv, m in fn.assigns() if rv["k"] == "use" and op_place(rv["ops"][0]) is not None)
+            homes[variant] = (fn, {x for x in range(len(fn.blocks)) if cfg.dominates(fn, cfg.switch_edge([t for b2 in range(len(fn.blocks)) for t in [fn.term(b2)] if t["k"] == "switch" and t.get("enum") == EXPR][0], variant=variant) or 0, x)})
+            r.inst("rewriter:%s" % variant, hf.where(jb), ok_base and ok_rel and stored,
+                   "relative path := helper(base.join(path)), stored back" if ok_base and ok_rel and stored else
+                   "rewriter does not rewrite %s paths correctly (base: %s, only-if-relative: %s, stored: %s)" % (variant, ok_base, ok_rel, stored))
+            continue
         need(arm, "rewriter has no join/is_relative for Expression::%s (neither in the arm nor in a helper it calls)" % variant)
         hf, blocks, joins, rel = arm
         homes[variant] = (hf, blocks)
@@ -464,4 +523,63 @@ def r25p(F):
     return r
 
 
-RULES = [r25, r25p, r26, r26c, r27, r27n, r68]
+def r26v(F):
+    r = RuleResult("R26v", "every nested evaluation knows what is being imported",
+                   "each VM::run inside the evaluator (function bodies, module bodies and out expressions, format scopes, imported "
+                   "files) runs a VM that was given the current import stack (with_import_stack fed from the parent's import_stack): an "
+                   "import reached through a VM that starts with an empty stack cannot see that its target is still being evaluated, and "
+                   "a cycle through that position recurses until the stack overflows", floor=6, exhaustive=True)
+    CG = callgraph.get(F)
+    RUN = "ucglib::build::opcode::vm::VM::run"
+    WIS = "ucglib::build::opcode::vm::VM::with_import_stack"
+    for n, b in sorted(CG.call_sites(RUN)):
+        if not n.startswith("ucglib::build::opcode::"):
+            continue           # FileBuilder starts a build: its stack is empty by definition
+        fn = F.fn(n)
+        t = fn.term(b)
+        o = Origins(fn)
+        # the builder chain of the receiver: `a.clean_copy().to_new_pointer(p).with_import_stack(s)` -- each call takes the previous
+        # result by value as its first argument
+        l = op_local(t["args"][0])
+        for bb, j2, pl, rv, m in fn.assigns():
+            if pl["l"] == l and not pl["p"] and rv["k"] == "ref" and not rv["place"]["p"]:
+                l = rv["place"]["l"]
+        chain = []
+        seen_l = set()
+        while l is not None and l not in seen_l:
+            seen_l.add(l)
+            defs = [(bb, tt) for bb, tt in fn.calls() if tt["dest"]["l"] == l and not tt["dest"]["p"]]
+            if not defs:
+                # moved from another local
+                mv = [op_local(rv["ops"][0]) for bb, j2, pl, rv, m in fn.assigns() if pl["l"] == l and not pl["p"] and rv["k"] == "use" and op_local(rv["ops"][0]) is not None]
+                l = mv[0] if mv else None
+                continue
+            # the definition that reaches this run (several arms may define the same local: take those that can reach b)
+            defs = [d for d in defs if cfg.reaches(fn, d[0], b)] or defs
+            bb, tt = max(defs, key=lambda d: TR.order_key(fn).get(d[0], 0))
+            chain.append((bb, tt))
+            l = op_local(tt["args"][0]) if tt["args"] else None
+        ok = False
+        for bb, tt in chain:
+            c = callee(tt)
+            if c == WIS:
+                al = o.at(tt["args"][1], bb)
+                if ("field", "import_stack") in al or any(x[0] == "param" and ("alloc::vec::Vec<alloc::rc::Rc<str>>" in fn.local_ty(x[1]) or "[alloc::rc::Rc<str>]" in fn.local_ty(x[1])) for x in al) \
+                        or any(x[0] == "call" and x[1] == "alloc::vec::Vec::push" or x[0] == "effect" for x in al):
+                    ok = True
+            elif c.startswith("ucglib::build::opcode::vm::VM::") and c in F.fns and c != RUN:
+                h = F.fn(c)
+                oh = None
+                for hb, ht in h.calls():
+                    if callee(ht) == WIS:
+                        oh = oh or Origins(h)
+                        if ("field", "import_stack") in oh.at(ht["args"][1], hb):
+                            ok = True
+        short = n.split("::")[-1]
+        ordn = sum(1 for x in r.instances if x["key"].startswith("R26v:%s:run" % short))
+        r.inst("%s:run#%d" % (short, ordn), fn.where(b), ok, "runs with the current import stack" if ok else
+               "%s runs a VM that was not given the import stack: an import cycle closing inside it is not detected" % short)
+    return r
+
+
+RULES = [r25, r25p, r26, r26c, r26v, r27, r27n, r68]
